@@ -157,10 +157,69 @@ def scen_imap():
     return bad
 
 
+class ScriptedCond:
+    """stands in for the iterator's condition: wait() runs what the other threads do while the caller sleeps"""
+    def __init__(self):
+        self.script = None
+
+    def __enter__(self):
+        return self
+
+    def __exit__(self, *a):
+        return False
+
+    def notify(self, *a):
+        pass
+
+    def wait(self, timeout=None):
+        act, self.script = self.script, None
+        if act:
+            act()
+
+
+def scen_imap_blocking():
+    """next() has to block (nothing queued, not over); what it returns is decided by what arrived during the wait"""
+    bad = []
+    for cls in (P.IMapIterator, P.IMapUnorderedIterator):
+        for n in range(0, 3):
+            for arrives in ('end', 'nothing', 'item', 'failed-item', 'item-and-end'):
+                if arrives in ('item', 'failed-item', 'item-and-end') and n == 0:
+                    continue
+                cache = {}
+                it = cls(cache)
+                it._cond = cond = ScriptedCond()
+                consumed = n if arrives in ('end', 'nothing') else n - 1
+                for k in range(consumed):
+                    it._set(k, (True, ('v', k)))
+                    it.next(0)
+                last = (arrives != 'failed-item', ('v', n - 1))
+                cond.script = {
+                    'end': lambda: it._set_length(n),
+                    'nothing': None,
+                    'item': lambda: it._set(n - 1, last),
+                    'failed-item': lambda: it._set(n - 1, last),
+                    'item-and-end': lambda: (it._set(n - 1, last), it._set_length(n)),
+                }[arrives]
+                try:
+                    got = ('ok', it.next(0.01))
+                except StopIteration:
+                    got = 'STOP'
+                except P.TimeoutError:
+                    got = 'TIMEOUT'
+                except Exception as e:       # noqa
+                    got = ('exc', e.args[0])
+                want = {'end': 'STOP', 'nothing': 'TIMEOUT', 'item': ('ok', last[1]), 'failed-item': ('exc', last[1]),
+                        'item-and-end': ('ok', last[1])}[arrives]
+                if got != want:
+                    bad.append('%s of %d items, %d consumed, caller blocked in next(); during the wait arrives: %s -> %r, '
+                               'expected %r' % (cls.__name__, n, consumed, arrives, got, want))
+    return bad
+
+
 def main():
     data = json.load(open(sys.argv[1]))
     print('replay of %s / %s' % (data['function'], data['obligation']))
-    bad = scen_map() + scen_default_chunksize() + scen_imap()
+    bad = scen_map() + scen_default_chunksize() + scen_imap() + scen_imap_blocking()
     for b in bad[:8]:
         print('  violation on real code: ' + b)
     print('REPRODUCED on real code' if bad else 'not reproduced')
